@@ -4,6 +4,7 @@ import (
 	"context"
 	"errors"
 	"io"
+	"net/http"
 )
 
 // C14 - every call terminates and releases what it acquired.
@@ -444,5 +445,31 @@ func HarnessC14PingPong() {
 	check(lateErr != nil && errors.Is(lateErr, io.EOF), "a Send after the call finished fails with an error wrapping io.EOF instead of blocking")
 	check(stream.CloseResponse() == nil, "closing the response side succeeds")
 	check(closes >= 1, "the HTTP response body has been closed")
+	check(verifQuiesce() == 0, "no goroutine started by the library remains")
+}
+
+// HarnessC14CloseWithUnreadData: a client that stops reading a large
+// response and closes it: more than the library is willing to drain (4 MiB)
+// is still unread.  Closing must still release the HTTP response body - the
+// transport then tears the stream down - and return.
+//
+//verif:harness property=C14 stubs=json,wire shard=proto:3 maxsteps=4000000
+func HarnessC14CloseWithUnreadData() {
+	proto := nondetChoice("proto", 3)
+	big := make([]byte, discardLimit+64)
+	body := append(refFrame(0, []byte{7}), refFrame(0, big)...)
+	header := http.Header{"Content-Type": {[]string{"application/connect+proto", "application/grpc+proto", "application/grpc-web+proto"}[proto]}}
+	closes := 0
+	resp := &http.Response{StatusCode: 200, Status: "200 OK", ProtoMajor: 2, Header: header, Trailer: http.Header{}, Body: &countingBody{Reader: &wholeReader{data: body}, closes: &closes}}
+	client := NewClient[[]byte, []byte](&cannedTransport{resp: resp}, stackURL, stackClientOptions(proto)...)
+	in := []byte{1}
+	stream, err := client.CallServerStream(context.Background(), NewRequest(&in))
+	check(err == nil, "starting the stream succeeds")
+	if err != nil {
+		return
+	}
+	check(stream.Receive(), "the first message arrives")
+	_ = stream.Close()
+	check(closes >= 1, "closing a response with a lot of unread data still closes the HTTP response body")
 	check(verifQuiesce() == 0, "no goroutine started by the library remains")
 }
